@@ -346,7 +346,7 @@ def document_corr(ctx: vlib.Ctx):
     import base64
     from mashumaro.dialect import Dialect
     r = ctx.rng
-    n_shapes = ctx.budget(14, 90)
+    n_shapes = ctx.budget(14, 50)
     cases, descr = [], []
     for si in range(n_shapes):
         fields = gen_shape(r)
